@@ -28,14 +28,58 @@ SRC_NAMES = {"src", "source", "src_job", "other", "fn_src"}
 DST_NAMES = {"dst", "destination", "dst_job", "self", "fn_dst", "dst_proxy"}
 
 
+def _root_names(ctx, fi, v, depth):
+    """Parameters an expression's *owner* derives from.  A path built with os.path.join / X.fn(...) belongs to the owner of its first
+    component; an attribute or a job opened in X belongs to X; locals are traced through their binders (assignment, `with f(arg) as v`
+    -> arg, loop target -> iterable) up to the parameters of the function or of the enclosing functions."""
+    scope_params = set(fi.params)
+    p = fi.parent
+    while p is not None:
+        scope_params |= set(p.params)
+        p = p.parent
+    if isinstance(v, ast.Call):
+        d = dotted(v.func) or ""
+        if d in ("os.path.join", "os.sep.join", "join") and v.args:
+            first = v.args[0].elts[0] if isinstance(v.args[0], (ast.Tuple, ast.List)) and v.args[0].elts else v.args[0]
+            return _root_names(ctx, fi, first, depth)
+        if isinstance(v.func, ast.Attribute) and v.func.attr in ("fn", "open_job", "get_job"):
+            return _root_names(ctx, fi, v.func.value, depth)
+    if isinstance(v, ast.Attribute):
+        return _root_names(ctx, fi, v.value, depth)
+    out = set()
+    for nm in names_in(v):
+        if nm in scope_params or depth > 5:
+            out.add(nm)
+            continue
+        srcs = []
+        for n in body_nodes(fi):
+            if isinstance(n, ast.Assign) and any(nm in common.target_names(t) for t in n.targets):
+                srcs.append(n.value)
+            elif isinstance(n, (ast.With, ast.AsyncWith)):
+                for it in n.items:
+                    if it.optional_vars is not None and nm in common.target_names(it.optional_vars):
+                        ce = it.context_expr
+                        if isinstance(ce, ast.Call) and ce.args:
+                            srcs.extend(ce.args)
+                        else:
+                            srcs.append(ce)
+            elif isinstance(n, (ast.For, ast.AsyncFor)) and nm in common.target_names(n.target):
+                srcs.append(n.iter)
+        if not srcs:
+            out.add(nm)
+        for sx in srcs:
+            if nm in names_in(sx):
+                continue
+            out |= _root_names(ctx, fi, sx, depth + 1)
+    return out
+
+
 def _role(ctx, fi, e, at=None):
     """'src' | 'dst' | 'both' | None by the root variables the (inlined) expression mentions."""
     v = common.inline_at(ctx, fi, e, at if at is not None else e)
-    if isinstance(v, ast.Call) and isinstance(v.func, ast.Attribute) and v.func.attr in ("open_job",):
-        v = v.func.value  # a job opened in project X belongs to X
-    ns = names_in(v)
+    ns = _root_names(ctx, fi, v, 0)
     s = bool(ns & {"src", "source", "src_job", "other"})
-    d = bool(ns & {"dst", "destination", "dst_job", "dst_proxy"}) or ("self" in ns and fi.qual in ("signac.job:Job.sync", "signac.project:Project.sync"))
+    d = bool(ns & {"dst", "destination"}) or ("self" in ns and fi.qual in ("signac.job:Job.sync", "signac.project:Project.sync"))
     if s and d:
         return "both"
     return "src" if s else ("dst" if d else None)
@@ -276,7 +320,7 @@ def c13_c(ctx: Ctx):
         out.append(ctx.ok(R, None, None, "_DocProxy exposes no item deletion", construct="_DocProxy|no-delete"))
     clear_callers = [(fi, n) for fi in ctx.prog.functions_of_module("signac.sync") for n in body_nodes(fi)
                      if isinstance(n, ast.Call) and isinstance(n.func, ast.Attribute) and n.func.attr == "clear" and isinstance(n.func.value, ast.Name)
-                     and n.func.value.id in ("proxy", "dst_proxy", "dst")]
+                     and (n.func.value.id in ("proxy", "dst_proxy", "dst") or ctx.calls.type_of(n.func.value, fi) == "signac.sync:_DocProxy")]
     for fi, n in clear_callers:
         hs = common.enclosing_handlers(ctx, fi, n)
         if hs and fi.qual.endswith("create_doc_backup"):
